@@ -773,6 +773,22 @@ def run(ctx):
                                  "that is zero / outside the wall-clock window of the run (the ts = 0 escape of isExpired): " + live,
                                  case=dict(seq="live", abstract_tsv=[], live=live)))
 
+    # the conversion of an old-format bitmap (BitSetOld: one KV value) by the first new-format SETBIT (BitSetV2) keeps
+    # every unexpired bit, under both expiration policies (real rockredis functions on a real store; fixed by bcbd73e)
+    if not ctx.replay:
+        rc, out, _ = sh("%s -bitmap" % os.path.join(vlib.BIN, "ttlsim"), cwd=ctx.run_dir, timeout=120)
+        lines = [l for l in out.split("\n") if l.startswith("BITMAP\t")]
+        res = lines[-1].split("\t", 1)[1] if lines else "inconclusive: no result (rc %d)" % rc
+        parts = [x.strip() for x in res.split(";")]
+        bad = [x for x in parts if not x.endswith(": ok") and "inconclusive" not in x]
+        hist_all["bitmap conversion check: " + ("violated" if bad else "inconclusive" if any("inconclusive" in x for x in parts) else "ok")] = 1
+        if bad:
+            all_fail.append(dict(name="bitmap-convert", what="unexpired data removed: converting an old-format bitmap (BitSetOld at offsets "
+                                 "0,7,8,9000,20000, then BitSetV2 offset 5) lost stored bits: " + "; ".join(bad),
+                                 case=dict(seq="bitmap", cmd="setbitv2", abstract_tsv=[], result=res)))
+        elif any("inconclusive" in x for x in parts):
+            ctx.notes.append("bitmap conversion check inconclusive: " + res)
+
     def search():
         d2, err = run_impl(ctx, "search", "-seed %d -n 2500 -len 40 -engines mem,pebble" % (ctx.seed + 1000003), model=False)
         if d2 is None:
